@@ -6,7 +6,7 @@ re-generate patch.diff against the current tree if it only applied with fuzz/off
 change, run the quick check of the property it breaks (VERIF_SRC pointing at the scratch copy) and write
 /verif/seeded/RESULTS.json + RESULTS.md.  Nothing is ever applied to /repo itself.
 
-usage: tools/run_seeds.py [name ...]   (default: all)   [--rebase] rewrites patch.diff when needed   [--merge] with names: update those rows of the last full RESULTS
+usage: tools/run_seeds.py [name ...]   (default: all)   [--rebase] rewrites patch.diff when needed   [--vseeds 2,3] also run the quick check at these VERIF_SEED values   [--merge] with names: update those rows of the last full RESULTS
        [--suite] also runs the repository's test-suite on the scratch copy (new failures = failures beyond the
        baseline's libsndfile ones)   [--jobs n] seeds in parallel (default 4; each quick check itself uses 16 processes)
 """
@@ -61,6 +61,9 @@ def suite(tmp):
     return (lines[-1] if lines else r.stderr[-200:]), new
 
 
+EXTRA_VSEEDS = []
+
+
 def one(name, rebase, with_suite=False):
     d = os.path.join(SEEDED, name)
     meta = json.load(open(os.path.join(d, "meta.json")))
@@ -106,6 +109,14 @@ def one(name, rebase, with_suite=False):
         first = [l.strip() for l in r.stdout.splitlines() if l.startswith("  first failure")]
         res["first_failure"] = first[0][:260] if first else ""
         res["detected"] = r.returncode == 1 and "VIOLATION property=" in r.stdout
+        if meta.get("out_of_domain"):
+            res["out_of_domain"] = meta["out_of_domain"]
+        # the same check at further VERIF_SEED values: a change that is only found at some seeds needs a better generator
+        per = {"1": res["detected"]}
+        for vs in EXTRA_VSEEDS:
+            r2 = run([os.path.join(HERE, "vcheck"), prop, "--tier", "quick", "--no-evidence"], env=dict(os.environ, VERIF_SRC=os.path.join(tmp, "src"), VERIF_SEED=str(vs)))
+            per[str(vs)] = r2.returncode == 1 and "VIOLATION property=" in r2.stdout
+        res["detected_by_seed"] = per
         return res
     finally:
         shutil.rmtree(tmp, ignore_errors=True)
@@ -117,6 +128,10 @@ def main():
     if "--jobs" in argv:
         i = argv.index("--jobs")
         jobs = int(argv[i + 1])
+        del argv[i : i + 2]
+    if "--vseeds" in argv:
+        i = argv.index("--vseeds")
+        EXTRA_VSEEDS[:] = [int(x) for x in argv[i + 1].split(",") if x]
         del argv[i : i + 2]
     args = [a for a in argv if not a.startswith("--")]
     rebase = "--rebase" in argv
@@ -150,9 +165,15 @@ def main():
             fh.write("| seed | property | patch | demo fails with / passes without | suite: new failures with the change | detected by quick check | s | first failure |\n|---|---|---|---|---|---|---|---|\n")
             for r in results:
                 sn = "not run" if "suite_new_failures" not in r else ("none" if not r["suite_new_failures"] else "; ".join(r["suite_new_failures"]))
-                fh.write(f"| {r['name']} | {r['property']} | {r.get('patch')} | {r.get('demo_with_change') != 0} / {r.get('demo_unchanged') == 0} | {sn} | {'YES' if r.get('detected') else 'NO'} | {r.get('check_seconds')} | {r.get('first_failure', '').replace('|', '/')[:160]} |\n")
+                per = r.get("detected_by_seed") or {}
+                det = "YES" if r.get("detected") else ("n/a: " + r["out_of_domain"] if r.get("out_of_domain") else "NO")
+                if len(per) > 1:
+                    det += " (" + ", ".join(f"seed {k}: {'yes' if v else 'NO'}" for k, v in sorted(per.items())) + ")"
+                fh.write(f"| {r['name']} | {r['property']} | {r.get('patch')} | {r.get('demo_with_change') != 0} / {r.get('demo_unchanged') == 0} | {sn} | {det} | {r.get('check_seconds')} | {r.get('first_failure', '').replace('|', '/')[:160]} |\n")
         nd = sum(1 for r in results if r.get("detected"))
-        print(f"{nd}/{len(results)} detected")
+        ood = sum(1 for r in results if r.get("out_of_domain") and not r.get("detected"))
+        weak = [r["name"] for r in results if r.get("detected_by_seed") and not all(r["detected_by_seed"].values()) and not r.get("out_of_domain")]
+        print(f"{nd}/{len(results)} detected at VERIF_SEED=1 ({ood} outside the claimed input domain); not found at every seed tried: {weak}")
 
 
 if __name__ == "__main__":
